@@ -1150,13 +1150,22 @@ class HistogramBase(abc.ABC):
                     if np.any(adapted_self._missed - adapted_other._missed < 0):
                         # The bins are checked by the setter below, the missed weights are not
                         raise ValueError("Cannot have negative frequencies.")
+                # Both arrays first (nothing is assigned when one of them is refused); the summed
+                # squared errors may need a wider integer type than the operands (as in +)
+                frequencies = adapted_self.frequencies - adapted_other.frequencies
+                errors2 = adapted_self.errors2 + adapted_other.errors2
+                if errors2.dtype.kind in "iu" and errors2.dtype.itemsize < 8:
+                    errors2 = adapted_self.errors2.astype(np.int64) + adapted_other.errors2
+                if np.any(frequencies < 0):
+                    raise ValueError("Cannot have negative frequencies.")
                 self._coerce_dtype(other.dtype)
-                self.frequencies = (
-                    adapted_self.frequencies - adapted_other.frequencies
-                ).astype(self.dtype)
-                self.errors2 = (adapted_self.errors2 + adapted_other.errors2).astype(
-                    self.dtype
-                )
+                if (
+                    self.dtype.kind in "iu"
+                    and errors2.max(initial=0) > np.iinfo(self.dtype).max
+                ):
+                    self.set_dtype(errors2.dtype)
+                self.frequencies = frequencies.astype(self.dtype)
+                self.errors2 = errors2.astype(self.dtype)
                 # Not in place: an unknown (NaN) missed weight does not fit an integer array
                 self._missed = self._missed - other._missed
                 if not other.keep_missed:
